@@ -108,6 +108,10 @@ pub struct HStats {
     pub records_delivered: usize,
     pub seeks_in_buffer: usize,
     pub seeks_real: usize,
+    /// seek targets inside / outside the last `capacity` bytes the source has delivered (a fact about
+    /// the workload, independent of whether the reader uses an in-buffer shortcut)
+    pub seek_targets_in_window: usize,
+    pub seek_targets_outside_window: usize,
     pub injected_seen: usize,
     pub refusals_seen: usize,
     pub degraded: bool,
@@ -840,6 +844,15 @@ impl<'a> Runner<'a> {
         };
         let inj0 = self.rig.src.borrow().injected.len();
         let seeks0 = self.rig.src.borrow().seek_calls;
+        {
+            let delivered = self.rig.src.borrow().pos as u64;
+            let cap = self.rig.r().capacity() as u64;
+            if byte < delivered && byte + cap >= delivered {
+                self.stats.seek_targets_in_window += 1;
+            } else {
+                self.stats.seek_targets_outside_window += 1;
+            }
+        }
         self.rig.begin_op();
         let res = guarded(|| self.rig.r().seek(line, byte));
         let res = match res {
